@@ -552,10 +552,14 @@ impl Story {
                                 b.1.cmp(a.1).then_with(|| InkList::name_order(b.0, a.0))
                             });
                             let random_item = sorted[list_item_index]; // Origin list is simply the origin of the one element
-                            let mut new_list = InkList::from_single_origin(
-                                random_item.0.get_origin_name().unwrap().clone(),
-                                self.list_definitions.as_ref(),
-                            )?;
+                            let mut new_list = match random_item.0.get_origin_name() {
+                                Some(origin_name) => InkList::from_single_origin(
+                                    origin_name.clone(),
+                                    self.list_definitions.as_ref(),
+                                )?,
+                                // An item of no declared list has no origin to carry over
+                                None => InkList::new(),
+                            };
                             new_list.items.insert(random_item.0.clone(), *random_item.1);
                             self.get_state_mut().previous_random = next_random as i32;
                             new_list
